@@ -1451,7 +1451,10 @@ def main(ctx):
         'from a routine at a logical time > 0 on every clock, from outside '
         'and from a function task; function tasks (outside routines at a '
         'time > 0) alone and tying with a routine; inner routines stepped '
-        'with next(); sends from a second plain thread; sends from the main '
+        'with next(); (NRT) the same (send time > 0, latency) pair converted '
+        'by a function task (absolute) and by a routine (logical + L) in '
+        'one program, both orders, 17 statements over every entry point, '
+        'all clock pairs; sends from a second plain thread; sends from the main '
         'or a second thread through every entry point WHILE a plain '
         'function task on SystemClock/TempoClock/AppClock is in the '
         'middle of its awake call (body takes 0.5 s): stamped from the '
